@@ -45,6 +45,9 @@ class Result:
         self.by_backend = {}
         self.solver_ms = 0
         self.functions = {}       # qual -> sha
+        self.verified_fns = set()  # bodies verified in this run
+        self.assumed_fns = set()  # contracts assumed, never verified here (trusted)
+        self.not_redischarged = set()   # verified by another property's check; callee contract only here
         self.samples = []
         self.trusted = set()
         self.assumptions = set()
@@ -80,15 +83,20 @@ def run_deductive(spec, res, tier):
         for q, c in cons.items():
             if q not in nodes:
                 continue
-            if targets is not None and q not in targets:
-                continue
             if c.trusted:
+                # every trusted contract of the module is reported (it may be assumed at a call site of a verified function), whether
+                # or not this property re-discharges the whole module
                 res.trusted.add(f'{q}: body not verified deductively; contract ASSUMED at call sites, '
                                 f'{c.d.get("bounded_by", "checked by the bounded tier")}')
+                res.assumed_fns.add(q)
+                continue
+            if targets is not None and q not in targets:
+                res.not_redischarged.add(q)
                 continue
             try:
                 o, npaths = eng.generate(q, nodes[q])
                 obls += o
+                res.verified_fns.add(q)
             except OutOfSubset as e:
                 res.out_of_subset.append(f'{q}: {e}')
                 # a function that used to be in subset and no longer is: undecided, never "proved"
@@ -486,7 +494,10 @@ def write_evidence(spec, res, wall):
         obligations=res.obligations, discharged=res.discharged,
         checker_cmd=f'./check {res.pid} --tier {res.tier}',
         trusted_base=sorted(res.trusted) + spec.get('trusted_base', []),
-        functions_under_contract=res.functions,
+        # only functions whose bodies are verified IN THIS RUN; assumed (trusted) contracts are listed in trusted_base, functions whose
+        # contract is discharged by another property's check in contracts_used_as_callees_only
+        functions_under_contract={q: h for q, h in res.functions.items() if q in res.verified_fns or q.startswith('lemmas:')},
+        contracts_used_as_callees_only=sorted(res.not_redischarged - res.verified_fns),
         obligations_by_backend=res.by_backend, solver_time_s=round(res.solver_ms / 1000, 2),
         ground=res.ground, canaries=res.canaries, frame_functions_checked=getattr(res, 'frame_functions', 0), out_of_subset=res.out_of_subset,
         bounded=res.bounded, undecided=[u.get('obligation') for u in res.undecided],
